@@ -23,21 +23,36 @@ func VfC08_ParseLocals() {
 		}
 		return implicit
 	}
+	// an ID may be written with leading zeros (`%02` is %2 for LLVM), at its
+	// definition, at its uses or both
+	spell := vfChoice("spelling", 4)
+	d := func(n string) string { // at a definition
+		if spell == 1 || spell == 3 {
+			return "0" + n
+		}
+		return n
+	}
+	u := func(n string) string { // at a use
+		if spell >= 2 {
+			return "00" + n
+		}
+		return n
+	}
 	src := "%sig = type void (i32)\ndeclare i32 @g()\ndeclare void @v()\ndeclare void @w(i32)\ndeclare void @va(i32, ...)\ndeclare void ()* @gp()\n" +
-		"define i32 @f(i32" + ex(0, " %0", "") + ", i32" + ex(1, " %1", "") + ") {\n" +
-		ex(2, "2:\n", "") +
-		"\t" + ex(3, "%3 = ", "") + "add i32 %0, %1\n" +
+		"define i32 @f(i32" + ex(0, " %"+d("0"), "") + ", i32" + ex(1, " %"+d("1"), "") + ") {\n" +
+		ex(2, d("2")+":\n", "") +
+		"\t" + ex(3, "%"+d("3")+" = ", "") + "add i32 %" + u("0") + ", %" + u("1") + "\n" +
 		"\tcall void @v()\n" +
 		"\tcall void (i32) @w(i32 %0)\n" + // full function type in front of the callee: still void
 		"\tcall void (i32, ...) @va(i32 %0, i32 %1)\n" +
-		"\t" + ex(4, "%4 = ", "") + "call i32 @g()\n" +
+		"\t" + ex(4, "%"+d("4")+" = ", "") + "call i32 @g()\n" +
 		"\tcall %sig @w(i32 %1)\n" + // the signature through a type alias: still void, no number
 		"\t%fp = call void ()* @gp()\n" + // the callee returns a function pointer: a value (named here)
 		"\tcall void %fp()\n" +
-		"\tbr label %5\n" +
-		"5:\n" +
-		"\t" + ex(5, "%6 = ", "") + "mul i32 %3, %4\n" +
-		"\tret i32 %6\n}\n"
+		"\tbr label %" + u("5") + "\n" +
+		d("5") + ":\n" +
+		"\t" + ex(5, "%"+d("6")+" = ", "") + "mul i32 %" + u("3") + ", %" + u("4") + "\n" +
+		"\tret i32 %" + u("6") + "\n}\n"
 	m, err := ParseString("t.ll", src)
 	vfReach("C08.parse.locals")
 	vfObserveStr("src", src)
@@ -84,11 +99,16 @@ func hUnnamedEntity(k int, id string) string {
 func VfC08_ParseGlobals() {
 	n := vfLen("n", 1, 3)
 	src := ""
+	// the numbers may be written with leading zeros (`@00` is @0 for LLVM)
+	zeros := ""
+	if vfChoice("leading-zeros", 2) == 1 {
+		zeros = "0"
+	}
 	var kinds []int
 	for i := 0; i < n; i++ {
 		k := vfChoice("kind"+string(rune('0'+i)), 4)
 		kinds = append(kinds, k)
-		id := "@" + string(rune('0'+i))
+		id := "@" + zeros + string(rune('0'+i))
 		src += hUnnamedEntity(k, id)
 		// other numbered top-level definitions (attribute groups, metadata) may
 		// stand anywhere between the globals; their numbers are unrelated
@@ -99,7 +119,7 @@ func VfC08_ParseGlobals() {
 			src += "!" + string(rune('3'+i)) + " = !{}\n"
 		}
 	}
-	src += "@t = global i32 7\n@user = global i32* @0\ndeclare void ()* @res()\n"
+	src += "@t = global i32 7\n@user = global i32* @" + zeros + zeros + "0\ndeclare void ()* @res()\n"
 	// known finding: the printer numbers by group (globals, aliases, ifuncs,
 	// functions), the parser by textual order
 	sorted := true
